@@ -550,7 +550,7 @@ class GlueBuild:
     def summary(self):
         """Canonical outcome, same shape as the Lean driver's `call socglue` answer."""
         if self.verdict == "ok":
-            return "ok %s %d %s" % (self.topology, self.n, " ".join("%d:%d" % r for r in self.slave_regions))
+            return ("ok %s %d %s" % (self.topology, self.n, " ".join("%d:%d" % r for r in self.slave_regions))).strip()
         if self.verdict == "finrej":
             return "finrej"
         return "rej %d" % self.verdict[1]
